@@ -128,7 +128,9 @@ class RankCtx:
                 first = first + acc
         outputs = dict(outputs)
         outputs[names[0]] = first
-        self.outputs = pt.make_dict_of_named_arrays(outputs)
+        # (DAGs handed to the partitioner are expected to be de-duplicated)
+        self.outputs = pt.transform.deduplicate(
+            pt.make_dict_of_named_arrays(outputs))
         return self.outputs
 
 
@@ -326,8 +328,10 @@ EXTRA_VALID_PROGRAMS = {"nested_holder": p_nested_holder}
 
 def build_rank(prog, rank, size, fault=None, staple="chain"):
     ctx = RankCtx(rank, size, fault, staple)
+    if prog.startswith("random") and prog not in PROGRAMS_RANDOM:
+        PROGRAMS_RANDOM[prog] = p_random(int(prog[len("random"):]))
     outs = (PROGRAMS.get(prog) or EXTRA_VALID_PROGRAMS.get(prog)
-            or INVALID_PROGRAMS[prog])(ctx)
+            or PROGRAMS_RANDOM.get(prog) or INVALID_PROGRAMS[prog])(ctx)
     return ctx, ctx.finish(outs)
 
 
@@ -661,5 +665,72 @@ def global_partitioned(partitions, inputs_by_rank):
     return [{name: inline(r, p.name_to_output[name])
              for name in p.overall_output_names}
             for r, p in enumerate(partitions)]
+
+# }}}
+
+
+# {{{ seeded random multi-rank programs (acyclic by construction)
+
+def random_messages(seed, size):
+    """A global sequence of 0..6 messages [(src, dst, tag)], at most 3
+    received per rank (keeps the schedule space of the executor small)."""
+    import random
+    rnd = random.Random(seed)
+    k = rnd.randint(0, 6)
+    msgs, recvd = [], {r: 0 for r in range(size)}
+    for i in range(k):
+        src = rnd.randrange(size)
+        dst = rnd.choice([r for r in range(size) if r != src])
+        if recvd[dst] >= 3:
+            continue
+        recvd[dst] += 1
+        tag = rnd.choice([("m", i), f"t{i}", i + 1000])
+        msgs.append((src, dst, tag))
+    return msgs, rnd.random()
+
+
+def p_random(seed):
+    def prog(c):
+        import random
+        msgs, _ = random_messages(seed, c.size)
+        rnd = random.Random(seed * 31 + c.rank)     # rank-local choices
+        cur = c.x
+        extra = {}
+        shared = None
+        for i, (src, dst, tag) in enumerate(msgs):
+            if src == c.rank:
+                mode = rnd.choice(["fresh", "fresh", "same", "stored"])
+                if mode == "same" and shared is not None:
+                    data = shared                   # one array sent twice
+                elif mode == "stored":
+                    data = (cur * (i + 2)).tagged(pt.tags.ImplStored())
+                else:
+                    data = cur * (i + 2) + 1
+                shared = data
+                c.send(data, dst, tag)
+            if dst == c.rank:
+                got = c.recv(src, tag)
+                mode = rnd.choice(["use", "use", "output", "forward-later"])
+                if mode == "output" and f"got{i}" not in extra:
+                    extra[f"got{i}"] = got          # received data as output
+                cur = cur + got if mode != "forward-later" else cur * 2 + got
+                if rnd.random() < 0.3:
+                    cur = cur.tagged(pt.tags.ImplStored())
+        outs = {"out": cur + 1}
+        outs.update(extra)
+        return outs
+    return prog
+
+
+def install_random_programs(seeds, sizes=(2, 3, 4)):
+    names = []
+    for s in seeds:
+        nm = f"random{s}"
+        PROGRAMS_RANDOM[nm] = p_random(s)
+        names.append(nm)
+    return names
+
+
+PROGRAMS_RANDOM: dict = {}
 
 # }}}
